@@ -5,7 +5,7 @@
      (cli-diff estr ARGS SRC SRC REPORT)
      (cli-validate estr ARGS tty (SRC...) SRC)
      (cli-merge estr ARGS tty (SRC...) SRC MERGE2-TABLE FLOW-TABLE JVIEW-TABLE)
-     (cli-set ARGS tty valfile_ok RAW1 GATHER BUILT SAVETO-TABLE CHANGE-TABLE FLOW-TABLE DUMP-TABLE JSONVIEW-TABLE CHANGE-VERB-TABLE)   valfile_ok = none | (some s<class the open raises>)
+     (cli-set ARGS tty valfile_ok RAW1 GATHER BUILT SAVETO-TABLE CHANGE-TABLE FLOW-TABLE DUMP-TABLE JSONVIEW-TABLE YAMLVIEW-TABLE CHANGE-VERB-TABLE)   valfile_ok = none | (some s<class the open raises>)
      (cli-paths estr ARGS tty (SRC...) SRC SEARCH-TABLE)
    Answer: (run STATUS (LINE...) (EFFECT...)) [+ (picked l r) for cli-diff] *)
 open Model
@@ -174,7 +174,7 @@ let handle (cmd : string) (args : t list) : t option =
       Some (run_s (cli_merge_main merge2 flow jview (nat_atom estr) a (bool_of_sym tty) (list_of source_of srcs) (source_of stdin_src)))
     | "cli-set", [L [A "args"; file; nostdin; noise; value; aliasof; mergekey; valfile; stdin; random; null; delete; anchor; tag;
                      check; saveto; saveto_same; mustexist; backup; eyamlcrypt; priv; priv_ok; pub; pub_ok; rflen; jsonext];
-                  tty; valfile_ok; load; gather; built; saveto_t; change_t; flow_t; dump_t; jview_t; cverb_t] ->
+                  tty; valfile_ok; load; gather; built; saveto_t; change_t; flow_t; dump_t; jview_t; yview_t; cverb_t] ->
       let b = bool_of_sym in
       let a = { sa_file = str_atom file; sa_nostdin = b nostdin; sa_noise = noise_of noise; sa_value = opt_of str_atom value;
                 sa_aliasof = b aliasof; sa_mergekey = b mergekey; sa_valfile = b valfile; sa_stdin = b stdin;
@@ -189,7 +189,8 @@ let handle (cmd : string) (args : t list) : t option =
       let dump_fail = table1 "dump" (opt_of str_atom) dump_t in
       let jsonview = table1 "jsonview" nat_atom jview_t in
       let change_verb = table1 "change_verb" nat_atom cverb_t in
-      Some (run_s (cli_set_main (lres_of nat_atom built) saveto change flow dump_fail jsonview change_verb a (b tty)
+      let yamlview = table1 "yamlview" nat_atom yview_t in
+      Some (run_s (cli_set_main (lres_of nat_atom built) saveto change flow dump_fail jsonview yamlview change_verb a (b tty)
                      (opt_of str_atom valfile_ok) (raw1_of load)
                      (lres_of (list_of setnode_of) gather)))
     | "cli-paths", [estr; L [A "args"; search; except; nofile; noexpr; nopath; values; noescape; fslash; nostdin; priv; priv_ok; pub; pub_ok];
